@@ -3,6 +3,6 @@ CONSTANT S = 3
 CONSTANT P = 2
 CONSTANT Depth = 5
 CONSTANT NClasses = 2
-CONSTANT OpSet = {"new","clone","copyctor","copyassign","movector","moveassign","stackassign","stack","setinnerptr","setinnerref","release","delete","mutate","pwrap","pown","pcopy","pmove","prelease","pdrop"}
+CONSTANT OpSet = {"new","clone","copyctor", "cloneinner","copyassign","movector","moveassign","stackassign","stack","setinnerptr","setinnerref","release","delete","mutate","pwrap","pown","pcopy","pmove","prelease","pdrop"}
 INVARIANT Inv
 CHECK_DEADLOCK FALSE
